@@ -33,6 +33,11 @@ NUMERIC_ONLY = {"vo", "rs", "pwr", "pwrs", "rt", "ii", "iis", "iq"}  # keys whos
 KINDS = list(SECTION)
 
 
+# the documented default limits: [0, 1e6] for every quantity, [-1e6, 1e6] for the peak temperature
+DOC_LIMITS = {k: [0.0, 1.0e6] for k in ("vi", "vo", "vd", "ii", "io", "pi", "po", "pl", "tr", "tp")}
+DOC_LIMITS["tp"] = [-1.0e6, 1.0e6]
+
+
 def floatify(x):
     if isinstance(x, bool):
         return x
@@ -164,8 +169,12 @@ def run(ctx, case):
         fn = os.path.join(d, "c.toml")
         with open(fn, "w") as f:
             f.write(toml.dumps(tdoc))
+        defaults_before = copy.deepcopy(ns.comps.LIMITS_DEFAULT)
         st, comp = H.call(cls.from_file, "X", fname=fn)
         det = {"kind": kind, "file": doc, "mode": mode}
+        # "absent optional keys take the constructor defaults": loading a file must not rewrite those defaults
+        ctx.check("toml.defaults_untouched", ns.comps.LIMITS_DEFAULT == defaults_before == DOC_LIMITS,
+                  dict(det, defaults_before=defaults_before, defaults_after=copy.deepcopy(ns.comps.LIMITS_DEFAULT)))
         if mode == "missing":
             ctx.check("toml.missing_mandatory_keyerror", st == "raise" and isinstance(comp, KeyError),
                       dict(det, dropped=case["drop"], outcome="built" if st == "ok" else H.exc_sig(comp)))
